@@ -1502,6 +1502,8 @@ PIP_Decision_Node::solve(const PIP_Problem& pip,
   Variables_Set all_params(params);
   add_artificial_parameters(context_true, all_params, space_dim,
                             artificial_parameters);
+  // The rows of `context_true' that do not come from the tests of this node.
+  const dimension_type num_context_rows = context_true.num_rows();
   merge_assign(context_true, constraints_, all_params);
   const bool has_false_child = (false_child != nullptr);
   const bool has_true_child = (true_child != nullptr);
@@ -1546,49 +1548,37 @@ PIP_Decision_Node::solve(const PIP_Problem& pip,
     return nullptr;
   }
 
-  if (has_false_child && false_child == nullptr) {
-    // False child has become unfeasible: merge this node's artificials with
-    // the true child, while removing the local parameter constraints, which
-    // are no longer discriminative.
-#ifdef NOISY_PIP_TREE_STRUCTURE
-    indent_and_print(std::cerr, indent_level,
-                     "=== DECISION: ELSE BRANCH NOW UNFEASIBLE\n");
-    indent_and_print(std::cerr, indent_level,
-                     "==> merge then branch with parent.\n");
-#endif
-    PIP_Tree_Node* const node = true_child;
-    node->parent_merge();
-    node->set_parent(parent());
-    true_child = nullptr;
-    delete this;
-    PPL_ASSERT(node->OK());
-    return node;
-  }
-  else if (has_true_child && true_child == nullptr) {
-    // True child has become unfeasible: merge this node's artificials
-    // with the false child.
+  // NOTE: when one of the two branches has become unfeasible the test of
+  // this node remains discriminative: where it selects the unfeasible branch
+  // there is no solution. Hence the node is kept (with no false child),
+  // instead of being replaced by its surviving child.
+  if (has_true_child && true_child == nullptr) {
+    // True child has become unfeasible: this node becomes
+    // "if (complement of the test) then (old false child) else bottom".
 #ifdef NOISY_PIP_TREE_STRUCTURE
     indent_and_print(std::cerr, indent_level,
                      "=== DECISION: THEN BRANCH NOW UNFEASIBLE\n");
-    indent_and_print(std::cerr, indent_level,
-                     "==> merge else branch with parent.\n");
 #endif
-    PIP_Tree_Node* const node = false_child;
-    node->parent_merge();
-    node->set_parent(parent());
+    PPL_ASSERT(has_false_child && false_child != nullptr);
+    // The last row of the context was complemented in place above.
+    const Row& complemented_test = context_true[context_true.num_rows() - 1];
+    Constraint_System empty_cs;
+    swap(constraints_, empty_cs);
+    add_constraint(complemented_test, all_params);
+    true_child = false_child;
     false_child = nullptr;
-    delete this;
-    PPL_ASSERT(node->OK());
-    return node;
   }
-  else if (check_feasible_context) {
+  if (check_feasible_context) {
     // Test all constraints for redundancy with the context, and eliminate
     // them if not necessary.
     Constraint_System cs;
     swap(cs, constraints_);
     for (Constraint_System::const_iterator ci = cs.begin(),
            ci_end = cs.end(); ci != ci_end; ++ci) {
-      Matrix<Row> ctx_copy(context);
+      // NOTE: the context must have the columns of this node's artificial
+      // parameters, which the tests may mention.
+      Matrix<Row> ctx_copy(context_true);
+      ctx_copy.remove_trailing_rows(ctx_copy.num_rows() - num_context_rows);
       merge_assign(ctx_copy, Constraint_System(*ci), all_params);
       Row& last = ctx_copy[ctx_copy.num_rows()-1];
       complement_assign(last, last, 1);
